@@ -27,6 +27,18 @@ over all configurations) of a-priori groups of columns — A: shooting column of
 column of the last ensemble; C: other shooting columns; D: wire-fencing columns; and the signed
 contrast L = B − A.  Each is tested at 6 σ.
 
+Audit pass (2026-09-30): (1) a column that cannot be estimated is a failure, not a skip: fewer contributing paths than
+MIN_KISH_PER_STEP·steps (Kish) → `C01:lattice:too-few-paths-to-estimate:*` (a sampler that never accepts writes no rows and
+used to pass with every column skipped), σ_eff beyond MAX_R·√(p0(1−p0)/steps) → `C01:lattice:no-resolution:*`;
+(2) deterministic, on every MC step of the real run: the extremes and the length a path reports are those of its frames
+(`C01:lattice:reported-extreme-is-not-the-extreme-of-the-frames`; the max-OP column decides what counts as crossing, and a
+10 % bias from a stale maximum is below the quick tier's per-column resolution); (3) the mean-length estimator has a Lean
+twin (`Infretis.Lattice.meanLenEst`, driver op `estlen`) compared exactly on every run's rows like the crossing estimator;
+(4) both closed forms are compared with the law of the plug-in's walk enumerated step by step (`sim.ensemble_law`).
+Measured sensitivity of the quick tier (seed 0, unchanged tree; smallest relative bias detected with ≥ 90 % power =
+7.3 σ): single crossing estimate 10–35 % (typically 13–20 %), pooled groups A 9 %, B/C 4.6 %, D (wf) 6 %, contrast L 4 %;
+single mean length 4.5–20 %, pooled mean length 3.8 % (sh) / 4.1 % (wf).
+
 Signatures depend on the cause class, never on the seed:
   C01:lattice:shooting-length-rule-bias   a shooting ensemble's estimate (or pooled group A / B / L)
         off by at most 8 % relative, in the direction the C09 length rule of the snapshot produced
@@ -58,6 +70,12 @@ from props import c01_ext  # noqa: E402  (the shooting move draw for draw: real 
 NSIGMA = 6.0
 LENGTH_RULE_MAX_REL = 0.08      # a deviation larger than this is not what the length rule produces
 SIG_LENGTH_RULE = "C01:lattice:shooting-length-rule-bias"
+# A column must be able to resolve something: a sampler that (almost) never accepts writes no rows, and a column without
+# rows used to be skipped silently.  Calibration (unchanged tree, quick tier, seeds 0-2, 29 columns each): Kish effective
+# number of paths / MC steps ≥ 0.042, R = σ_eff·√steps / √(p0(1−p0)) between 2.1 and 5.8 (R is intensive: it does not
+# depend on the run length).  The limits below are 12× / 2.6× away from the worst clean column.
+MIN_KISH_PER_STEP = 1.0 / 300.0
+MAX_R = 15.0
 
 
 # ----------------------------------------------------------------------------- configurations
@@ -79,8 +97,10 @@ def cost_ms(n, moves):
 def gen_configs(ctx):
     rng = ctx.rng
     quick = ctx.quick
-    budget_s = 150 if quick else 1000
-    max_steps = 22000 if quick else 200000
+    # thorough: simulated budget cut by 25 % (1000 → 750 s per configuration, 2e5 → 1.5e5 steps at most) after a 5142 s
+    # run against the 5400 s limit at load 60; costs a factor 1/√0.75 = 1.155 in every σ of the thorough tier
+    budget_s = 150 if quick else 750
+    max_steps = 22000 if quick else 150000
     cfgs = []
 
     def mk(n, tail, want_cap, W=None):
@@ -143,12 +163,12 @@ def gen_configs(ctx):
         cfgs.append(mk_t(6, ["wf", "sh", "sh", "sh", "sh"], 1.5, 1, 12000))
         cfgs.append(mk_t(6, ["sh", "wf", "sh", "sh", "sh"], 2.5, 1, 12000, every=(10, 20)))
     else:
-        cfgs.append(mk_t(6, ["wf", "sh", "sh", "sh", "sh"], 1.5, 1, 50000))
-        cfgs.append(mk_t(6, ["wf", "sh", "sh", "sh", "sh"], 2.5, 2, 50000))
-        cfgs.append(mk_t(5, ["wf", "wf", "sh", "sh"], 2.5, 2, 50000))
-        cfgs.append(mk_t(6, ["sh", "wf", "sh", "sh", "sh"], 2.5, 1, 36000, every=(10, 20)))
-        cfgs.append(mk_t(6, ["sh", "wf", "wf", "sh", "sh"], 3.5, 2, 36000, every=(10, 20)))
-        cfgs.append(mk_t(5, ["sh", "wf", "sh", "sh"], 2.5, 3, 40000, every=(20, 40)))
+        cfgs.append(mk_t(6, ["wf", "sh", "sh", "sh", "sh"], 1.5, 1, 37500))
+        cfgs.append(mk_t(6, ["wf", "sh", "sh", "sh", "sh"], 2.5, 2, 37500))
+        cfgs.append(mk_t(5, ["wf", "wf", "sh", "sh"], 2.5, 2, 37500))
+        cfgs.append(mk_t(6, ["sh", "wf", "sh", "sh", "sh"], 2.5, 1, 27000, every=(10, 20)))
+        cfgs.append(mk_t(6, ["sh", "wf", "wf", "sh", "sh"], 3.5, 2, 27000, every=(10, 20)))
+        cfgs.append(mk_t(5, ["sh", "wf", "sh", "sh"], 2.5, 3, 30000, every=(20, 40)))
     return cfgs
 
 
@@ -159,7 +179,7 @@ def ft(x):
 
 
 def encode_rows(rows, n):
-    parts = [f"estimate {n} {len(rows)}"]
+    parts = [f"estlen {n} {len(rows)}"]
     for (_pn, ln, mx, fr, w) in rows:
         parts.append(f"{ln} {ft(mx)} " + " ".join(ft(x) for x in fr) + " " + " ".join(ft(x) for x in w))
     return " ".join(parts)
@@ -177,6 +197,7 @@ def analyse(c, r, driver_exe):
     t0 = time.time()
     twin = sim.estimate_exact(rows, n)
     out["twin"] = [(str(a), str(b), (str(a / b) if b else "none")) for a, b in twin]
+    out["twin_len"] = [(str(a), str(b), (str(a / b) if b else "none")) for a, b in sim.mean_length_exact(rows, n)]
     out["lean"] = None
     if driver_exe:
         p = subprocess.run([driver_exe], input=encode_rows(rows, n) + "\n", stdout=subprocess.PIPE,
@@ -189,6 +210,7 @@ def analyse(c, r, driver_exe):
             if sim.tok(fr[k]) != 0 and sim.tok(w[k]) == 0:
                 zw += 1
     out["frac_on_zero_weight"] = zw
+    out["extreme_audit"] = r.get("extreme_audit")
     out["cols"] = [sim.column_stats(rows, n, k) for k in range(1, n)]
     out["lens"] = [sim.length_stats(rows, n, k) for k in range(1, n)]
     out["maxlen_path"] = max((x[1] for x in rows), default=0)
@@ -270,26 +292,52 @@ def judge(ctx, r, record=True):
                       "fraction but weight 0 — dropped by the estimator", {"config": c}))
     # correspondence: Lean estimator vs Python twin, exact
     if r.get("lean") is not None:
-        toks = r["lean"].split()
-        ok = len(toks) == 3 * (n - 1)
-        if ok:
-            for k in range(n - 1):
-                a, b, e = r["twin"][k]
-                la, lb, le = toks[3 * k: 3 * k + 3]
-                same = Fraction(la) == Fraction(a) and Fraction(lb) == Fraction(b) and \
-                    ((le == "none" and e == "none") or (le != "none" and e != "none" and Fraction(le) == Fraction(e)))
-                ok = ok and same
-        if not ok and record:
-            ctx.disagree({"fn": "estimate", "config": c}, [t[2] for t in r["twin"]], r["lean"][:400])
+        halves = r["lean"].split(" || ")
+        for fn, half, twin in (("estimate", halves[0], r["twin"]),
+                               ("meanLenEst", halves[1] if len(halves) == 2 else "", r.get("twin_len") or [])):
+            toks = half.split()
+            ok = len(halves) == 2 and len(toks) == 3 * (n - 1) and len(twin) == n - 1
+            if ok:
+                for k in range(n - 1):
+                    a, b, e = twin[k]
+                    la, lb, le = toks[3 * k: 3 * k + 3]
+                    same = Fraction(la) == Fraction(a) and Fraction(lb) == Fraction(b) and \
+                        ((le == "none" and e == "none") or (le != "none" and e != "none" and Fraction(le) == Fraction(e)))
+                    ok = ok and same
+            if not ok and record:
+                ctx.disagree({"fn": fn, "config": c}, [t[2] for t in twin], half[:400])
+    # deterministic: reported extremes / length of every path the run handled are those of its frames
+    ea = r.get("extreme_audit")
+    if ea:
+        if record:
+            ctx.hit("paths-with-extremes-audited", ea["checked"])
+        if ea["n_bad"]:
+            b0 = ea["bad"][0]
+            fails.append(("C01:lattice:reported-extreme-is-not-the-extreme-of-the-frames",
+                          f"{ea['n_bad']} of {ea['checked']} paths handed back by run_md report (min, max, length) = "
+                          f"{tuple(b0['reported_min_max_len'])} but their frames give {tuple(b0['frames_min_max_len'])} "
+                          f"(first: ensemble {b0['ens']}, status {b0['status']}) — the max-OP column of the data file decides "
+                          f"which paths count as crossing — {cfg_str(c)}", {"config": c, "first_bad": ea["bad"][:2]}))
     for k, st in enumerate(r["cols"], 1):
         if record:
             ctx.count(1, branch=f"move={c['moves'][k]}")
-        if st is None or st.get("sigma") is None:
+        if st is None or st.get("sigma") is None or st["kish"] < MIN_KISH_PER_STEP * c["steps"]:
             if record:
                 ctx.hit("column-without-enough-rows")
+            nk = (0, 0.0) if st is None else (st["n"], st["kish"])
+            fails.append((f"C01:lattice:too-few-paths-to-estimate:{c['moves'][k]}",
+                          f"column {k}: {nk[0]} contributing data rows (Kish effective number {nk[1]:.1f}) after {c['steps']} MC "
+                          f"steps — the unchanged tree gives at least {0.042 * c['steps']:.0f}; nothing converges to the exact "
+                          f"value — {cfg_str(c)}", {"config": c, "column": k, "rows": nk[0], "kish": nk[1]}))
             continue
         z = (st["p"] - st["p0"]) / st["sigma"]
         st["z"] = z
+        st["R"] = st["sigma"] * c["steps"] ** 0.5 / (st["p0"] * (1 - st["p0"])) ** 0.5
+        if st["R"] > MAX_R:
+            fails.append((f"C01:lattice:no-resolution:{c['moves'][k]}",
+                          f"column {k}: σ_eff = {st['sigma']:.4f} after {c['steps']} MC steps is {st['R']:.1f}·√(p0(1−p0)/steps); "
+                          f"the unchanged tree stays below 5.8 — a band this wide accepts anything — {cfg_str(c)}",
+                          {"config": c, "column": k, "sigma_eff": st["sigma"], "R": st["R"]}))
         # twin float vs exact twin: the statistics use the same estimate
         e = r["twin"][k - 1][2]
         if e != "none" and abs(float(Fraction(e)) - st["p"]) > 1e-12 and record:
@@ -312,6 +360,9 @@ def judge(ctx, r, record=True):
             continue
         z = (st["m"] - st["m0"]) / st["sigma"]
         st["z"] = z
+        e = (r.get("twin_len") or [("", "", "none")] * n)[k - 1][2]
+        if e != "none" and abs(float(Fraction(e)) - st["m"]) > 1e-9 * st["m0"] and record:
+            ctx.disagree({"fn": "float-vs-exact mean length", "config": c, "col": k}, st["m"], e)
         if abs(z) > NSIGMA:
             low = st["m"] < st["m0"]
             sig = f"C01:lattice:mean-length-outside-6sigma:{c['moves'][k]}:" + ("low" if low else "high")
@@ -410,7 +461,8 @@ def run(ctx):
     ctx.exhaustive = False
     ctx.rule = ("one evaluation = one (configuration, interface) estimate compared with its exact value; distinct = "
                 "distinct (number of interfaces, move assignment, cap, workers); every configuration is a full run of "
-                "the real scheduler with one restart; non-trivial = at least 40 data rows in the column.  Extension "
+                "the real scheduler with one restart; non-trivial = at least 40 data rows in the column; a column with fewer "
+                "effective paths than steps/300 or without a usable σ is a failure.  Extension "
                 "(branch ext-*): one evaluation = one scripted shooting move (real tis.shoot on the plug-in engine vs "
                 "latShoot vs Moves.shoot), distinct = distinct accepted (ensemble, old path, new path)")
     driver_exe = str(LEAN / ".lake/build/bin/drv_c01") if ctx._driver_ok else None
@@ -431,6 +483,40 @@ def run(ctx):
             ctx.count(1, branch="mean-length-closed-form")
             if g == "bad-op" or Fraction(g) != sim.exact_mean_length(n_, k_):
                 ctx.disagree({"fn": "meanLen", "n": n_, "k": k_}, str(sim.exact_mean_length(n_, k_)), g)
+        # the closed forms against the law of the plug-in's walk enumerated step by step (no formula shared): crossing
+        # probability and mean number of frames of every column (sim.ensemble_law)
+        for (n_, k_), g in zip(ml_cases, got):
+            if g == "bad-op":
+                continue
+            ctx.count(1, branch="closed-forms-vs-enumerated-law")
+            pc, ml = sim.ensemble_law(n_, k_)
+            if abs(pc - float(Fraction(k_, k_ + 1))) > 1e-9 or abs(ml - float(Fraction(g))) > 1e-9 * float(Fraction(g)):
+                ctx.disagree({"fn": "enumerated law of the walk vs closed forms", "n": n_, "k": k_},
+                             f"P={pc!r} mean length={ml!r}", f"hit={k_}/{k_ + 1} meanLen={g}")
+        # the walk's finite-horizon law of the exit time (stepsBy = E[min(τ,t)]) against x(N−x): 0 ≤ gap ≤ ρ^t (x(N−x)+1)
+        # (theorem exit_time_law_converges)
+        st_cases = [(N_, 18, x_) for N_ in (2, 3, 4, 5) for x_ in range(0, N_ + 1)]
+        got_s = ctx.driver([f"steps {N_} {t_} {x_}" for N_, t_, x_ in st_cases])
+        for (N_, t_, x_), g in zip(st_cases, got_s):
+            ctx.count(1, branch="exit-time-law")
+            ok_ = g != "bad-op"
+            if ok_:
+                gap = Fraction(x_ * (N_ - x_)) - Fraction(g)
+                ok_ = 0 <= gap <= Fraction(N_ * N_, N_ * N_ + 4) ** t_ * (x_ * (N_ - x_) + 1)
+            if not ok_:
+                ctx.disagree({"fn": "stepsBy", "N": N_, "t": t_, "x": x_}, f"x(N-x)={x_ * (N_ - x_)}", g)
+        # … and of the time to the top on the event "top first" (hitStepsBy) against x(N²−x²)/(3N): 0 ≤ gap ≤ (t+1) ρ^t (x(N−x)+1)
+        # (theorem hit_time_law_converges)
+        hs_cases = [(N_, 16, x_) for N_ in (2, 3, 4, 5) for x_ in range(0, N_ + 1)]
+        got_h = ctx.driver([f"hsteps {N_} {t_} {x_}" for N_, t_, x_ in hs_cases])
+        for (N_, t_, x_), g in zip(hs_cases, got_h):
+            ctx.count(1, branch="hit-time-law")
+            ok_ = g != "bad-op"
+            if ok_:
+                gap = Fraction(x_ * (N_ * N_ - x_ * x_), 3 * N_) - Fraction(g)
+                ok_ = 0 <= gap <= (t_ + 1) * Fraction(N_ * N_, N_ * N_ + 4) ** t_ * (x_ * (N_ - x_) + 1)
+            if not ok_:
+                ctx.disagree({"fn": "hitStepsBy", "N": N_, "t": t_, "x": x_}, f"x(N²-x²)/(3N)={Fraction(x_ * (N_ * N_ - x_ * x_), 3 * N_)}", g)
         # the walk's own finite-horizon law (reachBy) against the closed form: 0 ≤ gap ≤ ρ^t (k+2)
         # (theorems walk_law_below_closed_form / walk_law_gap), and the walk simulated by the plug-in's rule
         T = 300
@@ -449,6 +535,8 @@ def run(ctx):
             ("estimate 2 2 3 1/2 0 1 0 1 3 1/2 0 1 0 4", "0 5/4 0"),
             ("estimate 2 1 3 1/2 0 -1 0 1", "0 0 none"),
             ("estimate 2 1 3 1/2 0 1", "bad-op"),
+            ("estlen 3 2 5 3/2 0 1/2 1/3 0 1 2 7 5/2 0 1/4 2/3 0 1 1", "3/4 3/4 1 2/3 5/6 4/5 || 17/4 3/4 17/3 11/2 5/6 33/5"),
+            ("estlen 3 1 5 1/2 0 0 0 0 0 0", "0 0 none 0 0 none || 0 0 none 0 0 none"),
         ]
         got = ctx.driver([t[0] for t in tiny])
         for (q, want), g in zip(tiny, got):
@@ -531,7 +619,7 @@ def run(ctx):
         "theorems": ctx.proof.get("theorems", []), "proof_problems": ctx.proof.get("problems", []),
         "trusted_base": ["Lean 4.33.0 kernel; axioms ⊆ {propext, Classical.choice, Quot.sound} (audited each run)",
                          "Mathlib modules imported one at a time in Lemmas/Props",
-                         "hand-written Lean estimator — tied to its Python twin exactly on every run's data",
+                         "hand-written Lean estimators (crossing, mean length) — tied to their Python twins exactly on every run's data",
                          "Python harness: lattice plug-in, synchronous runner, statistics"],
     })
     ctx.explanation = (
@@ -542,15 +630,23 @@ def run(ctx):
         "characterisation of acceptance for all paths, the length rule as ξ ≤ n_old/n_new, detailed balance and "
         "finite-family invariance between any two concrete paths, marginals / Rao-Blackwell of the swap step over finite "
         "sums, the estimator's limit as a ratio of expectations; latShoot is compared draw for draw with the real "
-        "tis.shoot on every run. Tested here: real scheduler() runs vs the exact values within 6 σ_eff.")
+        "tis.shoot on every run and is proved equal to C09's generic Moves.shoot on lattice streams (maxlength ≥ 2); the "
+        "mean-length estimator as a Lean function (bounds, invariance, limit); finite-horizon laws of the walk for the "
+        "crossing probability and both ingredients of the mean length converge to the closed forms. Tested here: real "
+        "scheduler() runs vs the exact values within 6 σ_eff; reported extremes of every handled path (deterministic).")
     ctx.assumptions += [
         "the solution of the gambler's-ruin recurrence is the walk's hitting probability (optional stopping) — standard, not formalised",
         "process pool replaced by a synchronous runner behind a pickle boundary; completion order random and independent of the job's outcome",
         "os.fsync disabled and logging disabled in the child processes (durability/diagnostics only)",
         "σ from delete-one-block jackknife (20 and 40 contiguous blocks of data rows, larger of the two) with a binomial "
         "floor at the exact value; calibrated on 2e5-step runs (σ flat within 15 % from 10 to 160 blocks; z rms 0.85 on "
-        "unbiased code); bias smaller than 6 σ_eff is not detected (quick ≈ 9–30 % relative per estimate and 3–6 % per "
-        "pooled group, thorough ≈ 3–6 % per estimate and ≈ 1–1.5 % per pooled group)",
+        "unbiased code); bias smaller than 6 σ_eff is not detected. Measured (quick, seed 0): 6 σ_eff = 8–29 % relative per "
+        "crossing estimate, 3.3–7.4 % per pooled group, 3.1–3.4 % for the pooled mean length; with ≥ 90 % power (7.3 σ): "
+        "10–35 % / 4–9 % / 3.8–4.1 %. Thorough (simulated budget cut by 25 % on 2026-09-30, σ × 1.155): ≈ 3.5–7 % per "
+        "estimate, ≈ 1.2–1.7 % per pooled group",
+        "the statistical part cannot see a bias of ≈ 10 % in a single column in the quick tier (seeded C01-r4-mut1: z = −4.6 "
+        "on its column); that class (wrong recorded maximum) is covered by the deterministic extreme audit instead",
+        "lambda_minus_one is never set in the configurations (the [0-] ensemble is bounded by the plug-in's reflecting wall)",
         "the wire-fencing kernel's reversibility is not proved in the model (only its weights, C10)",
         "numpy's generator: integers uniform, random() uniform on [0,1), coins fair and independent — the step from the "
         "set of draws characterised by shoot_accept_iff to the probability kernelPaths is not formalised",
